@@ -341,6 +341,14 @@ def run(chk, prog):
                 rate = sm_eval(s["b"], env)
                 env[("l", C.strip_casts(s["a"])["id"])] = rate
                 rnode = s
+            elif s.get("k") == "Bin" and s["op"] in ("+=", "-=", "*=", "/=") and C.strip_casts(s["a"]).get("k") == "Ref":
+                # a term added to (or a factor applied to) the fit afterwards is part of the returned rate
+                rate = sm_eval({"k": "Bin", "op": s["op"][0], "a": s["a"], "b": s["b"], "l": s.get("l")}, env)
+                env[("l", C.strip_casts(s["a"])["id"])] = rate
+                rnode = s
+            elif s.get("k") in ("If", "For", "While", "Do", "Switch"):
+                raise AnalysisBroken("get_recombination_rate: the %s arm is not a straight-line formula (line %s)" %
+                                     (ion_name, s.get("l")))
         if rate is None:
             raise AnalysisBroken("get_recombination_rate: arm %s assigns no rate" % ion_name)
         n4 += 1
